@@ -252,7 +252,7 @@ def gen_scenario(s: Choices, cls, cfg):
     sc["containers"] = [s.weighted([(8, "ndarray"), (1, "strided"), (2, "pandas")]), vc, s.weighted([(5, "ndarray"), (1, "pandas")])]
     # fault plan
     if cfg.get("fault_mode"):
-        kind = s.weighted([(3, "task_fail_before"), (3, "task_fail_after"), (2, "spawn_fail")])
+        kind = s.weighted([(3, "task_fail_before"), (3, "task_fail_after"), (2, "spawn_fail"), (2, "consumer_interrupt")])
         sc["fault"] = {"kind": kind, "k": s.draw(5)}
     else:
         sc["fault"] = None
@@ -495,7 +495,7 @@ def _outcome(fn):
         r, c = fn()
         return ("ok", to_canonical(r), [int(x) for x in np.asarray(c)], str(np.asarray(r).dtype))
     except BaseException as e:  # noqa: BLE001
-        if isinstance(e, (KeyboardInterrupt, SystemExit, executor.ProtocolError)):
+        if isinstance(e, (KeyboardInterrupt, SystemExit, executor.ProtocolError)) and not isinstance(e, executor.InjectedInterrupt):
             raise
         return ("raise", type(e).__name__, compare.msg(e, 200))
 
